@@ -40,9 +40,9 @@ def env_head(rng, pad=None):
 
 class Check(PropertyCheck):
     ID = "C18"
-    LEAN_MODULE = "JobShopProofs.MultiEnvRewards"
+    LEAN_MODULE = "JobShopProofs.Properties.C18All"
     THEOREMS = ["JS.C18_observation_in_space", "JS.C18_step_returns_observation", "JS.C18_legal_action_in_space",
-                "JS.C18_done_truncated", "JS.C18_step_reward", "JS.C18_step_reward_reachable", "JS.C18_padObs", "JS.C18_multi_reset_config", "JS.C18_multi_instance_in_ranges", "JS.C18_multi_fits_classic", "JS.C18_multi_step_reward", "JS.C18_multi_legal_action_classic",
+                "JS.C18_done_truncated", "JS.C18_step_reward", "JS.C18_step_reward_reachable", "JS.C18_padObs", "JS.C18_multi_reset_config", "JS.C18_multi_instance_in_ranges", "JS.C18_multi_fits_classic", "JS.C18_multi_step_reward", "JS.C18_multi_legal_action_classic", "JS.C18_multi_refused_reset", "JS.C18_multi_refusal_raises", "JS.C18_multi_refused_reset_gen",
                 "JS.Env.make_envOK", "JS.compositeCols_shape", "JS.residualUpdate_sizeLe"]
     RULE = ("random instances (10 families incl. flexible, zero durations, machine-id gaps) x filter x env configuration "
             "(4 graph builders, residual-updater options, reward, padding on/off, 1-4 feature observer configs with "
@@ -187,8 +187,9 @@ class Check(PropertyCheck):
         steps = 0
         many = many_same or rng.random() < 0.25       # many short (abandoned) episodes: what one episode leaves behind must not show in the next
         may_refuse = bool(not al and j1 < m1)
-        # (a refusing generator has used up draws the model does not account for: such scenarios have one episode)
-        for ep in range(1 if may_refuse else rng.randint(5, 10) if many else rng.randint(1, 3)):
+        # (a refusing generator keeps the draws it consumed before refusing: model `GenFail.draws`, theorems of GenRefusal.lean - so later
+        # episodes of such scenarios are compared too)
+        for ep in range(rng.randint(2, 6) if may_refuse else rng.randint(5, 10) if many else rng.randint(1, 3)):
             lines.append("mreset")
             for _ in range(rng.randint(0, 3) if many and rng.random() < 0.7 else rng.randint(0, j2 * m2)):
                 if rng.random() < inject:
